@@ -58,6 +58,9 @@ Inductive ev :=
 Inductive phase := Got | Stored | Counted.
 
 Record st := {
+  fused : bool;                      (* false: ForIter = Chan.Next then Chan.Entry (the code as it is);
+                                        true: ForIter takes value and entry in ONE step (the proposed repair,
+                                        proposals/C10-range-multi-receiver.diff: Chan.NextEntry) *)
   buf : list msg;                    (* the Go channel's queue, head = oldest *)
   cap : nat;
   closed : bool;
@@ -87,7 +90,7 @@ Definition room (s : st) : bool := length (buf s) <? Nat.max (cap s) 1.
 
 (* the step only reports an event to the script *)
 Definition note (s : st) (e : ev) : st :=
-  {| buf := buf s; cap := cap s; closed := closed s; cancelled := cancelled s; todo := todo s;
+  {| fused := fused s; buf := buf s; cap := cap s; closed := closed s; cancelled := cancelled s; todo := todo s;
      deq := deq s; seen := seen s ++ [e]; last := last s; rxcount := rxcount s; iters := iters s |}.
 
 Definition step (s : st) (a : act) : option (st * ev) :=
@@ -99,7 +102,7 @@ Definition step (s : st) (a : act) : option (st * ev) :=
           if closed s then Some (note s (EvSendClosed i), EvSendClosed i)
           else if room s then
             let e := EvSent i (i, v) in
-            Some ({| buf := buf s ++ [(i, v)]; cap := cap s; closed := closed s; cancelled := cancelled s;
+            Some ({| fused := fused s; buf := buf s ++ [(i, v)]; cap := cap s; closed := closed s; cancelled := cancelled s;
                      todo := upd (todo s) i r;
                      deq := deq s; seen := seen s ++ [e]; last := last s; rxcount := rxcount s;
                      iters := iters s |}, e)
@@ -110,7 +113,7 @@ Definition step (s : st) (a : act) : option (st * ev) :=
       match buf s with
       | m :: r =>
           let e := EvRecv j m in
-          Some ({| buf := r; cap := cap s; closed := closed s; cancelled := cancelled s; todo := todo s;
+          Some ({| fused := fused s; buf := r; cap := cap s; closed := closed s; cancelled := cancelled s; todo := todo s;
                    deq := deq s ++ [(j, m)]; seen := seen s ++ [e]; last := last s; rxcount := rxcount s;
                    iters := iters s |}, e)
       | [] => if closed s then Some (note s (EvRecvNil j), EvRecvNil j)
@@ -120,8 +123,14 @@ Definition step (s : st) (a : act) : option (st * ev) :=
       if busy j s then None else
       match buf s with
       | m :: r =>
+          if fused s then
+            let e := EvEntry j (rxcount s) m in
+            Some ({| fused := fused s; buf := r; cap := cap s; closed := closed s; cancelled := cancelled s; todo := todo s;
+                     deq := deq s ++ [(j, m)]; seen := seen s ++ [e]; last := last s; rxcount := S (rxcount s);
+                     iters := iters s |}, e)
+          else
           let e := EvNext j in
-          Some ({| buf := r; cap := cap s; closed := closed s; cancelled := cancelled s; todo := todo s;
+          Some ({| fused := fused s; buf := r; cap := cap s; closed := closed s; cancelled := cancelled s; todo := todo s;
                    deq := deq s ++ [(j, m)]; seen := seen s ++ [e]; last := last s; rxcount := rxcount s;
                    iters := (j, (Got, m)) :: iters s |}, e)
       | [] => if closed s then Some (note s (EvIterEnd j), EvIterEnd j) else None
@@ -130,7 +139,7 @@ Definition step (s : st) (a : act) : option (st * ev) :=
       match iter_of j (iters s) with
       | Some (Got, m) =>
           let e := EvStore j in
-          Some ({| buf := buf s; cap := cap s; closed := closed s; cancelled := cancelled s; todo := todo s;
+          Some ({| fused := fused s; buf := buf s; cap := cap s; closed := closed s; cancelled := cancelled s; todo := todo s;
                    deq := deq s; seen := seen s ++ [e]; last := Some m; rxcount := rxcount s;
                    iters := (j, (Stored, m)) :: drop_iter j (iters s) |}, e)
       | _ => None
@@ -139,7 +148,7 @@ Definition step (s : st) (a : act) : option (st * ev) :=
       match iter_of j (iters s) with
       | Some (Stored, m) =>
           let e := EvCount j in
-          Some ({| buf := buf s; cap := cap s; closed := closed s; cancelled := cancelled s; todo := todo s;
+          Some ({| fused := fused s; buf := buf s; cap := cap s; closed := closed s; cancelled := cancelled s; todo := todo s;
                    deq := deq s; seen := seen s ++ [e]; last := last s; rxcount := S (rxcount s);
                    iters := (j, (Counted, m)) :: drop_iter j (iters s) |}, e)
       | _ => None
@@ -150,7 +159,7 @@ Definition step (s : st) (a : act) : option (st * ev) :=
           match last s with
           | Some m =>
               let e := EvEntry j (rxcount s - 1) m in
-              Some ({| buf := buf s; cap := cap s; closed := closed s; cancelled := cancelled s; todo := todo s;
+              Some ({| fused := fused s; buf := buf s; cap := cap s; closed := closed s; cancelled := cancelled s; todo := todo s;
                        deq := deq s; seen := seen s ++ [e]; last := last s; rxcount := rxcount s;
                        iters := drop_iter j (iters s) |}, e)
           | None => None
@@ -159,10 +168,10 @@ Definition step (s : st) (a : act) : option (st * ev) :=
       end
   | Close k =>
       let e := if closed s then EvCloseErr k else EvClosed k in
-      Some ({| buf := buf s; cap := cap s; closed := true; cancelled := cancelled s; todo := todo s;
+      Some ({| fused := fused s; buf := buf s; cap := cap s; closed := true; cancelled := cancelled s; todo := todo s;
                deq := deq s; seen := seen s ++ [e]; last := last s; rxcount := rxcount s; iters := iters s |}, e)
   | Cancel =>
-      Some ({| buf := buf s; cap := cap s; closed := closed s; cancelled := true; todo := todo s;
+      Some ({| fused := fused s; buf := buf s; cap := cap s; closed := closed s; cancelled := true; todo := todo s;
                deq := deq s; seen := seen s ++ [EvCancel]; last := last s; rxcount := rxcount s;
                iters := iters s |}, EvCancel)
   | SendCtx i =>
@@ -184,8 +193,8 @@ Fixpoint run (s : st) (sch : list act) : option st :=
   | a :: r => match step s a with Some (s', _) => run s' r | None => None end
   end.
 
-Definition init (c : nat) (prog : nat -> list N) : st :=
-  {| buf := []; cap := c; closed := false; cancelled := false; todo := prog; deq := []; seen := [];
+Definition init (f : bool) (c : nat) (prog : nat -> list N) : st :=
+  {| fused := f; buf := []; cap := c; closed := false; cancelled := false; todo := prog; deq := []; seen := [];
      last := None; rxcount := 0; iters := [] |}.
 
 (* ---- projections used by the statements ---- *)
